@@ -42,6 +42,8 @@ const (
 	kZeroInt
 	kEmptyString
 	kEmptySlice
+	kPanic   // the root resolver panics (nullable root: field null + error; non-null root: data null + error)
+	kNilRoot // the root resolver returns nil (nullable root: field null, no error; non-null root: data null + error)
 	kindCount
 )
 
@@ -108,6 +110,7 @@ type subMode struct {
 	// library that subscribes to the wrong field (e.g. looked up by alias) is noticed.
 	selected string
 	decoy    chan interface{}
+	subArgs  string // canonical rendering of the arguments the selected field's Subscribe resolver received
 }
 
 var cur *subMode
@@ -119,6 +122,7 @@ func subscribeFor(name string) graphql.FieldResolveFn {
 			if name != cur.selected {
 				return cur.decoy, nil
 			}
+			cur.subArgs = hx.Canon(p.Args) // the Subscribe resolver must get the coerced arguments, like Resolve
 			return cur.src, nil
 		case "value":
 			return cur.val, nil
@@ -141,10 +145,193 @@ func tickResolve(p graphql.ResolveParams) (interface{}, error) {
 	if !ok {
 		return nil, fmt.Errorf("unexpected root value %T", p.Source)
 	}
-	if e.K == 1 {
+	switch e.K {
+	case 1:
 		return nil, errors.New("root failed")
+	case kPanic:
+		panic(errors.New("root resolver panicked"))
+	case kNilRoot:
+		return nil, nil
 	}
 	return e, nil
+}
+
+// ---- documents with fragments at the root: an oracle for the set of root fields, written after the specification's
+// CollectFields (a fragment spread is looked at only if its directives let it through; only then is the fragment
+// marked visited), independent of the library's collectFields.
+
+type dirT struct {
+	skip bool // @skip, else @include
+	val  bool
+}
+type selT struct {
+	kind string // field | spread | inline
+	name string // field name / fragment name / type condition of an inline fragment ("" = none)
+	dirs []dirT
+	sels []selT
+}
+type fragT struct {
+	name string
+	sels []selT
+}
+type fragDocT struct {
+	root  []selT
+	frags []fragT
+}
+
+func sk(v bool) dirT  { return dirT{true, v} }
+func inc(v bool) dirT { return dirT{false, v} }
+func fld(name string, d ...dirT) selT {
+	return selT{kind: "field", name: name, dirs: d}
+}
+func spread(name string, d ...dirT) selT { return selT{kind: "spread", name: name, dirs: d} }
+func inline(cond string, d []dirT, sels ...selT) selT {
+	return selT{kind: "inline", name: cond, dirs: d, sels: sels}
+}
+
+var fragDocs = []fragDocT{
+	{}, // 0 = none
+	{[]selT{spread("F")}, []fragT{{"F", []selT{fld("tick")}}}},
+	{[]selT{spread("F", sk(true)), spread("F")}, []fragT{{"F", []selT{fld("tick")}}}},
+	{[]selT{spread("F", inc(false)), spread("F")}, []fragT{{"F", []selT{fld("tick")}}}},
+	{[]selT{spread("F", sk(false)), spread("F", sk(true))}, []fragT{{"F", []selT{fld("tick")}}}},
+	{[]selT{spread("F", sk(true))}, []fragT{{"F", []selT{fld("tick")}}}},
+	{[]selT{inline("Subscription", nil, fld("tick"))}, nil},
+	{[]selT{inline("", nil, fld("tick"))}, nil},
+	{[]selT{inline("", []dirT{sk(true)}, fld("tock")), fld("tick")}, nil},
+	{[]selT{inline("Subscription", []dirT{inc(false)}, fld("tick")), inline("", []dirT{inc(true)}, fld("tick"))}, nil},
+	{[]selT{spread("A")}, []fragT{{"A", []selT{spread("B", sk(true)), spread("B")}}, {"B", []selT{fld("tick")}}}},
+	{[]selT{spread("A"), spread("B")}, []fragT{{"A", []selT{spread("B", inc(false))}}, {"B", []selT{fld("tick")}}}},
+	{[]selT{spread("A")}, []fragT{{"A", []selT{fld("tock", sk(true)), spread("B")}}, {"B", []selT{fld("tick")}}}},
+	{[]selT{spread("F"), spread("G")}, []fragT{{"F", []selT{fld("tick")}}, {"G", []selT{fld("tock", sk(true))}}}},
+	{[]selT{spread("F"), spread("G")}, []fragT{{"F", []selT{fld("tick")}}, {"G", []selT{fld("tock")}}}},
+	{[]selT{fld("tick"), spread("F")}, []fragT{{"F", []selT{fld("tick")}}}},
+	{[]selT{spread("F", sk(false), inc(true))}, []fragT{{"F", []selT{fld("tick")}}}},
+	{[]selT{inline("", nil, inline("Subscription", []dirT{sk(false)}, spread("F")))}, []fragT{{"F", []selT{fld("tick")}}}},
+	{[]selT{spread("F", sk(true)), spread("F", inc(false))}, []fragT{{"F", []selT{fld("tick")}}}},
+	{[]selT{spread("F", inc(true)), spread("F", sk(true))}, []fragT{{"F", []selT{fld("tick")}}}},
+	{[]selT{spread("F", sk(true)), spread("F", inc(false)), spread("F", inc(true))}, []fragT{{"F", []selT{fld("tick")}}}},
+	{[]selT{spread("F", inc(false)), inline("", []dirT{sk(true)}, spread("F")), inline("Subscription", nil, spread("F"))}, []fragT{{"F", []selT{fld("tick")}}}},
+	{[]selT{spread("A", sk(true)), spread("C")}, []fragT{{"A", []selT{spread("B")}}, {"B", []selT{fld("tick")}}, {"C", []selT{spread("A")}}}},
+	{[]selT{spread("F", sk(true)), fld("tock", inc(false))}, []fragT{{"F", []selT{fld("tick")}}}},
+}
+
+// render: the document text and its variables; byVar: directive conditions come from variables $t (true) / $f (false)
+func (d fragDocT) render(byVar bool) (string, map[string]interface{}) {
+	usedT, usedF := false, false
+	var dirs func(ds []dirT) string
+	dirs = func(ds []dirT) string {
+		out := ""
+		for _, x := range ds {
+			name := "include"
+			if x.skip {
+				name = "skip"
+			}
+			if byVar {
+				if x.val {
+					usedT = true
+					out += " @" + name + "(if: $t)"
+				} else {
+					usedF = true
+					out += " @" + name + "(if: $f)"
+				}
+			} else {
+				out += fmt.Sprintf(" @%s(if: %v)", name, x.val)
+			}
+		}
+		return out
+	}
+	var sels func(ss []selT) string
+	sels = func(ss []selT) string {
+		parts := []string{}
+		for _, x := range ss {
+			switch x.kind {
+			case "field":
+				sub := " { n twice must }"
+				if x.name != "tick" {
+					sub = " { n }"
+				}
+				parts = append(parts, x.name+dirs(x.dirs)+sub)
+			case "spread":
+				parts = append(parts, "..."+x.name+dirs(x.dirs))
+			default:
+				cond := ""
+				if x.name != "" {
+					cond = " on " + x.name
+				}
+				parts = append(parts, "..."+cond+dirs(x.dirs)+" { "+sels(x.sels)+" }")
+			}
+		}
+		return strings.Join(parts, " ")
+	}
+	body := sels(d.root)
+	frs := ""
+	for _, f := range d.frags {
+		frs += " fragment " + f.name + " on Subscription { " + sels(f.sels) + " }"
+	}
+	head, vars := "subscription S", map[string]interface{}{}
+	defs := []string{}
+	if usedT {
+		defs = append(defs, "$t: Boolean!")
+		vars["t"] = true
+	}
+	if usedF {
+		defs = append(defs, "$f: Boolean!")
+		vars["f"] = false
+	}
+	if len(defs) > 0 {
+		head += "(" + strings.Join(defs, ", ") + ")"
+	}
+	return head + " { " + body + " }" + frs, vars
+}
+
+// rootFields: the specification's CollectFields on the root selection set: response keys in order of first occurrence
+func (d fragDocT) rootFields() []string {
+	keys := []string{}
+	visited := map[string]bool{}
+	selected := func(ds []dirT) bool {
+		for _, x := range ds {
+			if x.skip && x.val {
+				return false
+			}
+			if !x.skip && !x.val {
+				return false
+			}
+		}
+		return true
+	}
+	var walk func(ss []selT)
+	walk = func(ss []selT) {
+		for _, x := range ss {
+			if !selected(x.dirs) {
+				continue
+			}
+			switch x.kind {
+			case "field":
+				seen := false
+				for _, k := range keys {
+					seen = seen || k == x.name
+				}
+				if !seen {
+					keys = append(keys, x.name)
+				}
+			case "spread":
+				if visited[x.name] {
+					continue
+				}
+				visited[x.name] = true
+				for _, f := range d.frags {
+					if f.name == x.name {
+						walk(f.sels)
+					}
+				}
+			default:
+				walk(x.sels) // every type condition used here is the subscription type itself
+			}
+		}
+	}
+	walk(d.root)
+	return keys
 }
 
 // aliased: the request text with the root field `field` given the alias `alias`
@@ -261,6 +448,9 @@ func buildSchema() graphql.Schema {
 				},
 			},
 			"tick": &graphql.Field{Type: tick, Subscribe: subscribeFor("tick"), Resolve: tickResolve},
+			// the same with a NON-NULL type: an event whose payload makes the field fail yields {data: null, errors}
+			// — a legitimate result of that event; later events must still be delivered
+			"strict": &graphql.Field{Type: graphql.NewNonNull(tick), Subscribe: subscribeFor("strict"), Resolve: tickResolve},
 			// a second stream field, so that an alias can be the name of another subscription field
 			"tock":  &graphql.Field{Type: tick, Subscribe: subscribeFor("tock"), Resolve: tickResolve},
 			"nosub": &graphql.Field{Type: graphql.Int},
@@ -518,6 +708,9 @@ type caseT struct {
 	Vars     int      `json:"vars"`     // index into varCases (0 = the document without variables)
 	Alias    string   `json:"alias"`    // alias of the root field ("" = none): fresh, or the name of another subscription field
 	Dir      string   `json:"dir"`      // directives on the root field(s), see dirDocument ("" = none)
+	Frag     int      `json:"frag"`     // index into fragDocs: root-level fragment spreads / inline fragments (0 = none)
+	FragVar  bool     `json:"fragVar"`  // their directive conditions come from variables
+	Root     string   `json:"root"`     // "" = the nullable root field tick; "strict" = the non-null root field strict: Tick!
 }
 
 type observation struct {
@@ -591,6 +784,10 @@ func (r *runner) start() {
 	if r.c.Vars > 0 && r.spec.model == "stream" {
 		query, vars = varCases[r.c.Vars].query, varCases[r.c.Vars].vars
 		cur.selected = "paint"
+	}
+	if r.c.Root == "strict" && r.c.Vars == 0 {
+		cur.selected = "strict"
+		query = strings.Replace(query, "{ tick", "{ strict", 1)
 	}
 	if r.spec.model == "stream" {
 		query = aliased(query, cur.selected, r.c.Alias)
@@ -1067,7 +1264,7 @@ func main() {
 	}
 	defer drv.Close()
 	schema := buildSchema()
-	run.Res.Rule = "schedules = sequences of harness intents (P produce next event, O offer next event in the background, D consumer receives, R receive racing with cancel, C cancel, X close source, W wait for the forwarder to leave, S consumer stops, Z consumer pauses) enumerated depth-first under the model's enabledness, then a finale (complete: deliver/produce everything, close the source; or cancel: cancel and give no consumer help); requests: stream with 0..4 events of 11 payload kinds (ok, root resolver fails, nullable leaf fails, non-null leaf null, and the closure look-alikes nil, empty map, typed nil pointer, false, 0, \"\", empty slice — each also swept over every position of sequences of 1..4 events); a quarter of the stream cases (plus a sweep) subscribe with variables whose coercion is not idempotent (enum with int internal values, enum whose internal values are names of other values, custom scalar that rewrites its value, input object and lists of these, defaults, provided values, literals) and compare every delivered result with graphql.Execute of the same selection on the event with the same raw variables, cross-checked by a hand-computed expectation; a quarter of the stream cases (plus a sweep) give the single root field an alias — fresh, or the name of another subscription field (tock, paint, nosub, tick), whose Subscribe resolver hands out a decoy stream — and the results must be keyed by the alias and follow the SELECTED field's stream; a sweep puts @skip / @include / both (all truth combinations, literal and variable-driven) on the root field, alone and next to a second root field excluded by its own directives: the field is selected iff not skipped and included, otherwise exactly one error result, 9 one-shot failures inside the goroutine, non-channel value, parse and validation errors; entries graphql.Subscribe and ExecuteSubscription; the real run is recorded as model actions and validated by the compiled Lean model; non-trivial = the recorded run has >= 3 model actions (>= 1 for one-shot requests); distinct by (request, entry, events, intents, consumer, finale)"
+	run.Res.Rule = "schedules = sequences of harness intents (P produce next event, O offer next event in the background, D consumer receives, R receive racing with cancel, C cancel, X close source, W wait for the forwarder to leave, S consumer stops, Z consumer pauses) enumerated depth-first under the model's enabledness, then a finale (complete: deliver/produce everything, close the source; or cancel: cancel and give no consumer help); requests: stream with 0..4 events of 11 payload kinds (ok, root resolver fails, nullable leaf fails, non-null leaf null, and the closure look-alikes nil, empty map, typed nil pointer, false, 0, \"\", empty slice — each also swept over every position of sequences of 1..4 events); a quarter of the stream cases (plus a sweep) subscribe with variables whose coercion is not idempotent (enum with int internal values, enum whose internal values are names of other values, custom scalar that rewrites its value, input object and lists of these, defaults, provided values, literals) and compare every delivered result with graphql.Execute of the same selection on the event with the same raw variables, cross-checked by a hand-computed expectation; a quarter of the stream cases (plus a sweep) give the single root field an alias — fresh, or the name of another subscription field (tock, paint, nosub, tick), whose Subscribe resolver hands out a decoy stream — and the results must be keyed by the alias and follow the SELECTED field's stream; a sweep puts @skip / @include / both (all truth combinations, literal and variable-driven) on the root field, alone and next to a second root field excluded by its own directives: the field is selected iff not skipped and included, otherwise exactly one error result; a sweep over documents with root-level fragment spreads / inline fragments (with and without type condition, nested, the same fragment spread several times) carrying @skip/@include, whose root field set is computed by an oracle written after the specification's CollectFields; the non-null root field strict: Tick! (a third of the plain stream cases plus a sweep) with payloads that null the whole data (resolver error, non-null leaf null, resolver panic, resolver returns nil) interleaved with succeeding events; the arguments the Subscribe resolver receives are compared with the coerced ones, 9 one-shot failures inside the goroutine, non-channel value, parse and validation errors; entries graphql.Subscribe and ExecuteSubscription; the real run is recorded as model actions and validated by the compiled Lean model; non-trivial = the recorded run has >= 3 model actions (>= 1 for one-shot requests); distinct by (request, entry, events, intents, consumer, finale)"
 
 	one := func(c caseT) {
 		spec, okSpec := reqSpecs[c.Req]
@@ -1092,6 +1289,26 @@ func main() {
 				}
 			}
 		}
+		if c.Frag > 0 && c.Req == "stream" && c.Vars == 0 && c.Alias == "" && c.Dir == "" {
+			if c.Frag >= len(fragDocs) {
+				run.CheckError("unknown fragment document")
+				return
+			}
+			q, vars := fragDocs[c.Frag].render(c.FragVar)
+			spec.query, spec.vars = q, vars
+			if rf := fragDocs[c.Frag].rootFields(); !(len(rf) == 1 && rf[0] == "tick") {
+				// not exactly one root field (none, or two): exactly one error result, then closed
+				spec.model = "oneShot"
+				doc, err := parser.Parse(parser.ParseParams{Source: q})
+				if err != nil {
+					run.CheckError("fragment document does not parse: " + q)
+					return
+				}
+				if !graphql.ValidateDocument(&schema, doc, nil).IsValid {
+					spec.model = "invalid"
+				}
+			}
+		}
 		// subscriptions with variables: the reference result of every event = the same selection executed by
 		// graphql.Execute on the event as root value with the same raw variables (what the property demands of
 		// each delivered result), cross-checked with the hand-computed expectation
@@ -1100,6 +1317,9 @@ func main() {
 		key := "tick" // response key of the root field
 		if c.Vars > 0 {
 			key = "paint"
+		}
+		if c.Root == "strict" && c.Vars == 0 {
+			key = "strict"
 		}
 		if c.Alias != "" && spec.model == "stream" {
 			key = c.Alias
@@ -1182,7 +1402,7 @@ func main() {
 			req = map[string]interface{}{"kind": "oneShot", "r": res}
 		}
 		var m modelResp
-		if err := drv.Ask(map[string]interface{}{"req": req, "acts": trace, "expect": reference, "key": key}, &m); err != nil {
+		if err := drv.Ask(map[string]interface{}{"req": req, "acts": trace, "expect": reference, "key": key, "nonNull": c.Root == "strict" && c.Vars == 0}, &m); err != nil {
 			run.CheckError(err.Error())
 			r.cleanup()
 			return
@@ -1236,6 +1456,19 @@ func main() {
 			}
 			replay["document"] = aliased(map[bool]string{false: streamQuery, true: varCases[c.Vars].query}[c.Vars > 0], map[bool]string{false: "tick", true: "paint"}[c.Vars > 0], c.Alias)
 		}
+		if c.Frag > 0 {
+			run.Tag("root-fragments:" + map[bool]string{true: "one-root-field", false: "not-exactly-one-root-field"}[spec.model == "stream"])
+			replay["document"], replay["variables"], replay["root_fields_by_the_specification"] = spec.query, spec.vars, fragDocs[c.Frag].rootFields()
+		}
+		if c.Root == "strict" && c.Vars == 0 {
+			run.Tag("non-null-root-field")
+			for _, e := range c.Events {
+				if e[0] == 1 || e[0] == 3 || e[0] == kPanic || e[0] == kNilRoot {
+					run.Tag("non-null-root-field:event-with-null-data")
+					break
+				}
+			}
+		}
 		if c.Dir != "" {
 			run.Tag("root-directives:" + map[bool]string{true: "field-selected", false: "field-excluded"}[spec.model == "stream"])
 			if strings.Contains(c.Dir, ":") {
@@ -1248,9 +1481,17 @@ func main() {
 			replay["query"], replay["variables"] = varCases[c.Vars].query, varCases[c.Vars].vars
 		}
 		bad := ""
+		subArgsFault := ""
+		if c.Vars > 0 && spec.model == "stream" && r.started && cur.subArgs != "" {
+			if want := hx.Canon(varCases[c.Vars].args); cur.subArgs != want {
+				subArgsFault = "the Subscribe resolver received the arguments " + cur.subArgs + ", the coerced arguments (what Resolve receives for the same field) are " + want
+			}
+		}
 		switch {
 		case refFault != "":
 			bad = refFault
+		case subArgsFault != "":
+			bad = subArgsFault
 		case r.obs.Fault != "":
 			bad = r.obs.Fault
 		case !m.Valid:
@@ -1275,6 +1516,12 @@ func main() {
 		}
 		if bad != "" && c.Alias != "" && spec.model == "stream" {
 			bad += fmt.Sprintf("; the root field carries the alias %q (document in the replay): the subscription must follow the stream of the SELECTED field %q, whose Subscribe resolver alone hands out the source channel", c.Alias, cur.selected)
+		}
+		if bad != "" && c.Frag > 0 {
+			bad += fmt.Sprintf("; document %s variables %s: by the specification's CollectFields the root fields are %v", spec.query, hx.Canon(spec.vars), fragDocs[c.Frag].rootFields())
+		}
+		if bad != "" && c.Root == "strict" {
+			bad += "; the root field is non-null (strict: Tick!): an event whose payload makes it fail yields {data: null, errors} and every later event must still be delivered"
 		}
 		if bad != "" && c.Dir != "" {
 			bad += fmt.Sprintf("; document %s variables %s: a root field is selected iff it is not skipped and it is included — here `tick` is %s", spec.query, hx.Canon(spec.vars), map[bool]string{true: "selected (its events must be delivered)", false: "excluded (exactly one error result, no subscription)"}[spec.model == "stream"])
@@ -1475,6 +1722,49 @@ func main() {
 			}
 		}
 	}
+	// fragment spreads and inline fragments at the root, carrying @skip / @include, the same fragment spread several
+	// times with different conditions, nested fragments; literal and variable-driven
+	for fi := 1; fi < len(fragDocs); fi++ {
+		for _, byVar := range []bool{false, true} {
+			rf := fragDocs[fi].rootFields()
+			pats := []struct{ consumer, intents, finale string }{{"slow", "D", "complete"}, {"slow", "C", "cancel"}, {"stopped", "S", "cancel"}}
+			if len(rf) == 1 && rf[0] == "tick" {
+				pats = []struct{ consumer, intents, finale string }{{"prompt", "", "complete"}, {"slow", "PDP", "cancel"}, {"slow", "PDPDX", "complete"}}
+			}
+			for _, v := range pats {
+				for _, entry := range []string{"subscribe", "execute"} {
+					if run.TooManyViolations() {
+						break
+					}
+					one(caseT{Req: "stream", Entry: entry, Events: [][2]int{{0, 51}, {1, 52}}, Intents: v.intents, Consumer: v.consumer, Finale: v.finale, Frag: fi, FragVar: byVar})
+					run.Tag("root-fragments-sweep")
+				}
+			}
+		}
+	}
+	// non-null root field: events whose payload nulls the whole data, interleaved with succeeding events
+	for _, bad := range []int{1, 3, kPanic, kNilRoot} {
+		for _, shape := range [][]int{{0, -1, 0, -1, 0}, {-1, 0, 0}, {0, 0, -1}, {-1, -1, 0, -1}, {-1}} {
+			for _, v := range []struct{ consumer, intents, finale string }{{"prompt", "", "complete"}, {"slow", "PDPD", "complete"}, {"slow", "PDPDP", "cancel"}} {
+				for _, entry := range []string{"subscribe", "execute"} {
+					for _, root := range []string{"strict", ""} {
+						if run.TooManyViolations() {
+							break
+						}
+						ev := make([][2]int, len(shape))
+						for k, x := range shape {
+							ev[k] = [2]int{0, 60 + k}
+							if x < 0 {
+								ev[k][0] = bad
+							}
+						}
+						one(caseT{Req: "stream", Entry: entry, Events: ev, Intents: v.intents, Consumer: v.consumer, Finale: v.finale, Root: root})
+						run.Tag("failing-payload-sweep")
+					}
+				}
+			}
+		}
+	}
 	// aliased root fields: fresh aliases and aliases that are the name of ANOTHER subscription field (with and
 	// without arguments / variables); the delivered sequence must be the mapped prefix of the SELECTED field's stream
 	for _, av := range []struct {
@@ -1564,6 +1854,9 @@ func main() {
 				}
 				if (c.Vars > 0 && c.Alias == "paint") || (c.Vars == 0 && c.Alias == "tick") {
 					c.Alias = "" // an alias equal to the field's own name is no alias
+				}
+				if c.Vars == 0 && c.Alias == "" && rg.Chance(1, 3) {
+					c.Root = "strict" // the non-null root field
 				}
 				one(c)
 				idx++
